@@ -69,7 +69,7 @@ def candDec (cfg : EncCfg) (st : Option AesSt) (cipher : Bytes) : List String :=
     let ds := (digestSize mac).getD 0
     if ds ≤ cipher.length then
       let body := cipher.take (cipher.length - ds)
-      let iv := match st with | some s => s.ivDec | none => []
+      let iv := match st with | some s => s.get Gen.cbcDecIvSlot | none => []
       qMac mac mk body :: (if body.length % 16 == 0 && body.length > 0 then [qDec cbc ck iv body] else [])
     else []
 
@@ -82,7 +82,7 @@ def candEnc (tbl : Tbl) (cfg : EncCfg) (st : Option AesSt) (plain : Bytes) : Lis
     match aesInput C plain with
     | none => []
     | some input =>
-      let iv := match st with | some s => s.ivEnc | none => []
+      let iv := match st with | some s => s.get Gen.cbcEncIvSlot | none => []
       let q := qEnc cbc ck iv input
       match ans tbl q with
       | none => [q]
